@@ -1,10 +1,10 @@
 #!/bin/bash
 # seedr2.sh <Cxx> [more checks...]: confirm the round-2 seeded change for Cxx (fresh worktree: build, tests, demo both ways) and run the check(s) against it.
 cd "$(dirname "$0")"; . ./env.sh
-N=$1; shift; M=/tmp/wt/R2$N/MUTATION; W=/tmp/ws/R2$N
+N=$1; shift; M=/tmp/wt/${ROUND:-R2}$N/MUTATION; W=/tmp/ws/${ROUND:-R2}$N
 [ -f $M/patch.diff ] || { echo "no patch"; exit 3; }
 PKG=$(head -1 $M/DEMO_PKG 2>/dev/null | tr -d ' \r\n'); PKG=${PKG#./}; PKG=${PKG%/}
-./seedcheck.sh $M/patch.diff R2$N 2>&1 | grep -v '^PASSED'
+./seedcheck.sh $M/patch.diff ${ROUND:-R2}$N 2>&1 | grep -v '^PASSED'
 if [ -n "$PKG" ] && [ -f $M/demo_test.go ]; then
   cp $M/demo_test.go $W/$PKG/zz_seed_demo_test.go
   (cd $W; echo "--- demo WITH the change ($PKG)"; timeout 300 go test -tags seeddemo -vet=off -count=1 -run TestSeedDemo ./$PKG/ 2>&1 | grep -v '^$' | tail -${TAILN:-5} | cut -c1-300
